@@ -412,10 +412,14 @@ def rand_instance(rng, nv=3):
     return inst, state
 
 
+def rnd(x):
+    return float('%.11g' % x) + 0.0
+
+
 def norm_solution(sol):
-    st = sorted((k, v) for k, v in (sol['state']['entries'] if sol['state'] else []))
-    return (sol['objective'], st, sol['feasible'], sol['feasible_relaxed'],
-            [(e['id'], e['equality'], e['evaluated_value'], sorted(e['used_decision_variable_ids']), e['name'], e['subscripts'],
+    st = sorted((k, rnd(v)) for k, v in (sol['state']['entries'] if sol['state'] else []))
+    return (rnd(sol['objective']), st, sol['feasible'], sol['feasible_relaxed'],
+            [(e['id'], e['equality'], rnd(e['evaluated_value']), sorted(e['used_decision_variable_ids']), e['name'], e['subscripts'],
               sorted(e['parameters']), e['description'], e['removed_reason'], sorted(e['removed_reason_parameters'])) for e in sol['evaluated_constraints']],
             [v['id'] for v in sol['decision_variables']], sol['optimality'], sol['relaxation'], sol['feasible_unrelaxed'])
 
